@@ -461,3 +461,109 @@ Proof.
   - rewrite !app_assoc. apply Permutation_app_tail. apply Permutation_app_comm.
   - eapply perm_trans; eassumption.
 Qed.
+
+Lemma existsb_ext_in' {A} (p q : A -> bool) l :
+  (forall x, In x l -> p x = q x) -> existsb p l = existsb q l.
+Proof.
+  induction l as [|a l IH]; intros H; cbn [existsb]; [reflexivity|].
+  rewrite (H a (or_introl eq_refl)), IH; [reflexivity|].
+  intros x Hx. apply H. right. exact Hx.
+Qed.
+
+Lemma flat_map_perm_pointwise {A B} (g1 g2 : A -> list B) l :
+  (forall x, Permutation (g1 x) (g2 x)) ->
+  Permutation (flat_map g1 l) (flat_map g2 l).
+Proof.
+  intros H. induction l as [|a l IH]; cbn [flat_map]; [constructor|].
+  apply Permutation_app; [apply H|exact IH].
+Qed.
+
+Lemma images_perm f g :
+  Permutation (f_feats f) (f_feats g) -> Permutation (images f) (images g).
+Proof. intros P. unfold images. apply flat_map_perm. exact P. Qed.
+
+(* the cues do not depend on the order in which the features are stored *)
+Lemma violations_order_independent f g n :
+  same_content f g -> f_evcount f = Some n ->
+  exists cf cg, violations f = Some cf /\ violations g = Some cg
+                /\ Permutation cf cg.
+Proof.
+  intros H Hn. pose proof H as H'. unfold same_content in H'.
+  destruct H' as (E1 & P & E3 & E4 & E5 & E6 & E7 & E8 & E9 & E10 & E11 & E12
+                  & E13 & E14 & E15 & E16 & E17 & E18 & E19 & E20 & E21 & E22
+                  & E23 & E24).
+  exists (violations_n f n), (violations_n g n).
+  split; [apply violations_defined; exact Hn|].
+  split; [apply violations_defined; congruence|].
+  assert (FI : forall i, flmax_innate f i = flmax_innate g i).
+  { intros i. unfold flmax_innate. apply existsb_perm. exact P. }
+  assert (HF : has_fl f = has_fl g).
+  { unfold has_fl. rewrite !FI. reflexivity. }
+  assert (KP : forall k, key_present f k = key_present g k).
+  { intros k. unfold key_present.
+    rewrite E1, E7, E8, E9, E10, E11, E12, E13, E15, E17, E20. reflexivity. }
+  assert (Q1 : check_basin_features_internal f = check_basin_features_internal g).
+  { unfold check_basin_features_internal. rewrite E23, E24. reflexivity. }
+  assert (Q2 : check_external_links f = check_external_links g).
+  { unfold check_external_links. rewrite E6. reflexivity. }
+  assert (Q3 : check_feat_index f n = check_feat_index g n).
+  { unfold check_feat_index. rewrite (existsb_perm _ _ _ P). reflexivity. }
+  assert (Q4 : Permutation (check_feature_size f n) (check_feature_size g n)).
+  { unfold check_feature_size. rewrite E4. apply Permutation_app_tail.
+    apply flat_map_perm. exact P. }
+  assert (Q5 : check_features_unknown_hdf5 f = check_features_unknown_hdf5 g).
+  { unfold check_features_unknown_hdf5. rewrite E5. reflexivity. }
+  assert (Q6 : (if has_fl f then check_fl_num_channels f ++ check_fl_num_lasers f
+                                ++ check_fl_samples_per_event f else [])
+               = (if has_fl g then check_fl_num_channels g ++ check_fl_num_lasers g
+                                   ++ check_fl_samples_per_event g else [])).
+  { rewrite HF. destruct (has_fl g); [|reflexivity].
+    unfold check_fl_num_channels, check_fl_num_lasers,
+      check_fl_samples_per_event, channels_found, lasers_found.
+    cbn [map]. rewrite !FI, E15, E16, E17, E18, E19, E20, E4. reflexivity. }
+  assert (Q7 : Permutation (check_metadata_bad f) (check_metadata_bad g)).
+  { unfold check_metadata_bad. rewrite E7, E8.
+    destruct (f_roi_x g); [|constructor]. destruct (f_roi_y g); [|constructor].
+    apply Permutation_app; apply flat_map_perm_pointwise; intros which;
+      apply flat_map_perm; apply images_perm; exact P. }
+  assert (Q8 : check_metadata_bad_greater_zero f = check_metadata_bad_greater_zero g).
+  { unfold check_metadata_bad_greater_zero, greater_zero_values.
+    rewrite E9, E10, E11, E12. reflexivity. }
+  assert (Q10 : check_metadata_missing f = check_metadata_missing g).
+  { unfold check_metadata_missing, imaging_section, missing_in. rewrite HF, E14.
+    rewrite (existsb_ext_in' _ _ _ (fun k _ => KP k)).
+    rewrite !(filter_ext _ _ (fun k => f_equal negb (KP k))). reflexivity. }
+  assert (Q11 : check_metadata_online_filter_polygon_points_shape f
+                = check_metadata_online_filter_polygon_points_shape g).
+  { unfold check_metadata_online_filter_polygon_points_shape. rewrite E21.
+    reflexivity. }
+  assert (Q12 : check_ml_class f n = check_ml_class g n).
+  { unfold check_ml_class. rewrite (existsb_perm _ _ _ P). reflexivity. }
+  assert (Q13 : check_temperature_zero_zmd f = check_temperature_zero_zmd g).
+  { unfold check_temperature_zero_zmd. rewrite E22, (existsb_perm _ _ _ P).
+    reflexivity. }
+  unfold violations_n. rewrite Q1, Q2, Q3, Q5, Q6, Q8, Q10, Q11, Q12, Q13.
+  do 3 apply Permutation_app_head.
+  apply Permutation_app; [exact Q4|].
+  do 2 apply Permutation_app_head.
+  apply Permutation_app; [exact Q7|apply Permutation_refl].
+Qed.
+
+(* non-vacuity of the cue theorems: a file in which a truncated image, a
+   wrong ROI, an unknown feature, a missing key, a bad index, wrong
+   fluorescence counts, an external link and a non-positive value meet *)
+Definition ex_corrupt : file :=
+  mkFile (Some 4)
+         [mkFeat 0 (Plain 4); mkFeat 1 (FlMax 1 4); mkFeat 2 (Image 0 3 5 7);
+          mkFeat 3 (Index [1; 2; 4; 3])]
+         4 [(1, (4, 12))] [0; 7] true
+         (Some 6) (Some 5) (Some 0) (Some 24) (Some 1280) (Some 4)
+         [0; 2; 3; 4; 5; 6; 9; 10; 14; 17; 19; 21; 22; 24; 25; 26] false
+         (Some 2) [1] (Some 2) [1] [(1, 640)] (Some 11) [(2, 2)] false [] None.
+
+Example ex_corrupt_cues :
+  violations ex_corrupt
+  = Some [ExternalLink; IndexNotEnumerated; FeatureSize 2; FeatureUnknown 7;
+          ChannelCount; LaserCount; SamplesPerEvent 1; RoiMismatch 1 0;
+          NonPositive 7; MissingKey 16; PolygonShape 0].
+Proof. vm_compute. reflexivity. Qed.
